@@ -389,7 +389,7 @@ def abstract(obs: dict, sc: dict | None = None, checker_awaits_core: bool = Fals
         def put(*lab: Any) -> None:
             out.append([t, *lab])
         if kind in ("spawn", "spawned", "rtWaitDone", "rtCancelled", "rtStopRootsEnd", "rtHungWaitEnd", "rtStopHungEnd",
-                    "rtReraise", "scReraiseCore", "scCleanupBegin", "orchStopSubsEnd", "stopperEnd",
+                    "rtReraise", "scReraiseCore", "scCleanupBegin", "orchStopSubsEnd", "stopperEnd", "zombies",
                     "poisoned", "scStopCoreCancelled", "abandoned"):
             continue
         if kind == "killerFinally":
@@ -659,6 +659,11 @@ def oracle(sc: dict, obs: dict) -> tuple[list[tuple[str, dict]], dict]:
     stop_cancelled = [i for i, e in enumerate(log) if e[1] == "rtStopRootsCancelled"]
     never_stopped = ret is not None and ret["how"] == "cancelled" and not any(e[1] == "rtStopRootsBegin" for e in log)
     facts["double_cancelled_orchestrator"] = bool(double_cancel)
+    # runs the model does not describe (it begins at run_tasks and knows one stop trigger): judged by the oracle only
+    if never_stopped:
+        facts["outside_model"] = "C20-F10"
+    elif stop_cancelled:
+        facts["outside_model"] = "C20-F11"
     facts["late_daemons"] = [d[:2] for d in late_daemons]
     facts["workers_failed_during_depletion"] = len(dropped)
     facts["failures"] = [f[2] + ":" + str(f[3]) for f in failures]
@@ -1178,8 +1183,9 @@ def _evaluate(ctx: Ctx, histories: list[dict], tie: bool = True) -> None:
     for k, (sc, obs) in enumerate(zip(histories, obs_list)):
         ctx.traces += 1
         bad, facts = oracle(sc, obs)
-        if facts.get("noncooperative"):
+        if facts.get("noncooperative") or facts.get("outside_model"):
             noncoop.add(k)
+            ctx.count("tie_skipped", facts.get("outside_model") or "C20-F7")
         shape = dict(sc.get("shape") or {"corpus": sc.get("name")})
         shape["outcome"] = (obs.get("returned") or {}).get("how")
         ctx.case(key=shape, nontrivial=facts.get("trigger") is not None,
@@ -1207,7 +1213,7 @@ def _evaluate(ctx: Ctx, histories: list[dict], tie: bool = True) -> None:
     swap = bool(ctx.extra.get("core_awaited_by_stop_flag_checker"))
     # non-cooperative runs (open finding C20-F7: the operator never returns) are outside `ReachC`: oracle only
     if noncoop:
-        ctx.count("tie_skipped_noncooperative", "C20-F7", len(noncoop))
+        pass
         histories = [sc for k, sc in enumerate(histories) if k not in noncoop]
         obs_list = [o for k, o in enumerate(obs_list) if k not in noncoop]
     reqs = [["C20.trace", model_cfg(sc, fixed, core_watched), abstract(obs, sc, swap)] for sc, obs in zip(histories, obs_list)]
